@@ -1,5 +1,5 @@
 """C03 - a failed send leaves no trace; a successful send is delivered exactly once."""
-from gen import common, framing, ux
+from gen import common, framing, ux, api
 from gen.common import hexs
 from gen.props.C01 import replay
 
@@ -9,6 +9,7 @@ THEOREMS = [
     "XcmModel.C03.C03_bad_refuses", "XcmModel.C03.C03_only_accepted_delivered_once",
     "XcmModel.C03.accepted_only_ok", "XcmModel.C01.C01_exact_delivery",
     "XcmModel.C03.C03_ux_failed_send_no_trace", "XcmModel.C03.C03_ux_size_checks_first",
+    "XcmModel.Api.msgBsend_acc", "XcmModel.C03.C03_blocking_send_no_false_failure", "XcmModel.C03.C03_blocking_send_accepted_once",
 ]
 
 
@@ -72,3 +73,21 @@ def run(ctx):
     ctx.assumptions += ["lower-layer failure is terminal (C06 of btcp/btls); blocking-mode xcm_send (poll/EINTR) is outside this check"]
     ux.run_part(ctx, 40 if quick else 2000, "c03")
     ctx.rule += "; unit_ux: ux_send refused by the size checks or by the kernel (EAGAIN, EINTR, EPIPE...) vs model: nothing handed to the kernel, counters unchanged"
+    # blocking-mode wrappers of xcm.c (bytestream_bsend / msg_bsend / socket_finish)
+    aexe = api.build()
+    amon = api.Monitor(ctx)
+    aops = []
+    for k in range(120 if quick else 4000):
+        aops += api.gen_history(ctx.rng.fork("api%d" % k), 25, ctx)
+        if len(aops) > 3000:
+            m, il = ctx.differential("unit_api", "api", aexe, aops, label="api")
+            amon.run(aops, il)
+            for o, l in zip(aops, m):
+                ctx.nontriv(("api", o.split()[0], l[:100]))
+            aops = []
+        if ctx.over_budget():
+            break
+    if aops:
+        m, il = ctx.differential("unit_api", "api", aexe, aops, label="api")
+        amon.run(aops, il)
+    ctx.rule += "; unit_api: the real xcm.c wrappers (blocking and non-blocking xcm_send/xcm_receive/xcm_finish/xcm_set_blocking) over a scripted transport and poll(), traces of transport calls and waits compared with the Lean Api model; monitor: offered ranges stay inside the caller's buffer, reported byte count = bytes the transport accepted, no -1/EINTR after acceptance"
